@@ -93,6 +93,11 @@ impl Tc {
                 self.pat_ok(a, t)?;
                 self.pat_ok(b, t)
             }
+            | (Pat::Project(l, _, _, p), VT::Prod(ts)) => match field_payloads(ts, l).as_slice() {
+                | [t] => self.pat_ok(p, t),
+                | [] => err(format!("missing field {l} in pattern")),
+                | _ => err(format!("ambiguous field {l} in pattern")),
+            },
             | (p, t) => err(format!("pattern {:?} against type {}", std::mem::discriminant(p), crate::print::vt(t))),
         }
     }
@@ -123,6 +128,11 @@ impl Tc {
                 self.infer_pat(a, t, out)?;
                 self.infer_pat(b, t, out)
             }
+            | (Pat::Project(l, _, _, p), VT::Prod(ts)) => match field_payloads(ts, l).as_slice() {
+                | [t] => self.infer_pat(p, t, out),
+                | [] => err(format!("missing field {l} in pattern")),
+                | _ => err(format!("ambiguous field {l} in pattern")),
+            },
             | (p, t) => err(format!("pattern {:?} against type {}", std::mem::discriminant(p), crate::print::vt(t))),
         }
     }
@@ -543,4 +553,9 @@ fn regroup(ts: &[VT], n: usize) -> Vec<VT> {
     let mut v = ts[..n - 1].to_vec();
     v.push(VT::Prod(ts[n - 1..].to_vec()));
     v
+}
+
+/// payload types of the top-level components named `l` (the generator only builds flat records)
+fn field_payloads(ts: &[VT], l: &str) -> Vec<VT> {
+    ts.iter().filter_map(|c| match c { | VT::Named(n, t) if n == l => Some((**t).clone()), | _ => None }).collect()
 }
